@@ -9,10 +9,14 @@ Regenerated on every run (DESIGN 5.1):
   * the BUILDER functions of fst.py, cfg.py, cfglm.py, wfsa/base.py (table `BUILDERS`)  ->  Generated/Builders.lean
       one Lean definition per function in the vocabulary of the hand models; Proofs/GenLink/*.lean prove
       `gen_<f>_eq_model`: the regenerated definition IS the hand-written model.
+  * the FOLD functions of chart.py, lm.py (table `FOLDS`: `Chart.sum`, `normalize`, `product`, `LM.__call__`)  ->  Generated/Folds.lean
+      value-computing accumulator loops (with `break`), same theorems `gen_<f>_eq_model`.
 The law proofs (Proofs/Semiring.lean, Proofs/Prio.lean, Proofs/GenLink/) are about these generated definitions, so
 they are re-checked against what the source says now.  Anything outside the supported subset raises
 `Untranslatable`, which the checks treat like a broken proof (never silently skipped).
 """
+import warnings
+warnings.filterwarnings("ignore", category=SyntaxWarning)   # docstrings of the translated sources contain LaTeX backslashes
 import ast
 import os
 import re
@@ -372,6 +376,15 @@ def translate_earley(src, ns):
 #   _gen_nt(..)               a fresh symbol: an explicit argument;  self.agenda(..)  a chart: an explicit argument `Z`
 #   set.add(x)                `x :: set`;  CFG.add keeps zero-weight rules (their skipping is `dropZero`, Model/Norm.lean)
 #   xs[:k], xs[k]             `xs.take k`, `xs[k]?` (as a label)
+# round 3 (T8):
+#   V = self.backward / self.forward      a solution of a linear system: an explicit argument `V : ι → K`; `V[i]` is `V i`
+#   E = self.E; S = E.closure()           the ε closure: explicit arguments `S : ι → ι → K`, `S_outgoing : ι → List ι` (`S.outgoing[i]`)
+#   self.start[i] / self.stop[i]          the ACCUMULATED weight `wlook self.start i`;  w ** (-1)  `inv w`
+#   a set of states (parameter)           a list; iterating it visits `eraseDups`, `j in active` is `j ∈ active`
+#   self.alphabet - {EPSILON}             `WFSA.labels self`;  states of a machine turned into a grammar are symbols (`WFSA σ σ K`)
+#   self.rules[i], r.body[k]              may fail: explicit arguments (`rules[i]? = some s`, … are hypotheses of the theorems)
+#   self.rhs[X]                           `rules.filter (head = X)`;  enumerate(self)  `rules.zipIdx`;  self.is_terminal(y)  `y ∈ V`
+#   cfg.V (iterated)                      `V.eraseDups` (a Python set);  CFG.spawn  its return expression, inlined with the given keywords
 # Everything else raises Untranslatable; the function's definition is then omitted, so its theorem no longer builds.
 
 class Val:
@@ -381,7 +394,8 @@ class Val:
 
 
 P_TY = {"label": "Option σ", "weight": "K", "oweight": "Option K", "str": "List σ", "nat": "Nat", "syms": "List σ",
-        "labels": "List (Option σ)", "pairs": "List (List σ × List σ)", "cfg": "CFG σ K", "sym": "σ"}
+        "labels": "List (Option σ)", "pairs": "List (List σ × List σ)", "cfg": "CFG σ K", "sym": "σ",
+        "stateset": "List ι", "fn": "σ → σ", "wfn": "K → K'", "sfn": "ι → κ", "mode": "String", "osym": "Option σ", "ovocab": "Option (List σ)"}
 # module constants the interpretation above relies on: (file, name) -> source text of the assigned value
 CONSTS = {("wfsa/base.py", "EPSILON"): "''", ("fst.py", "ε"): "EPSILON", ("fst.py", "ε_1"): "f'{EPSILON}₁'",
           ("fst.py", "ε_2"): "f'{EPSILON}₂'", ("cfglm.py", "EOS"): "'▪'"}
@@ -406,7 +420,32 @@ BUILDERS = [
     ("cfg.py", "prefix_transducer", ["C03"], {"R": "skip", "V": "syms"}, ("FST", "Nat")),
     ("cfglm.py", "add_EOS", ["C20"], {"cfg": "cfg", "eos": "sym"}, ("CFG", None)),
     ("cfglm.py", "locally_normalize", ["C20"], {"self": "cfg", "kwargs": "skip"}, ("CFG", None)),
+    # ---- round 3 (T8).  A sixth component = options: `pin` (the cfg.py primitives the body relies on are checked against PINS),
+    # `name` (Lean name), `K` (weight type of the result), `kwonly` (keyword-only parameters), `returns` (shape of the final return)
+    ("wfsa/base.py", "WFSA.rename", ["C12"], {"self": M("WFSA", "ι"), "f": "sfn"}, ("WFSA", "κ"), {}),
+    ("wfsa/base.py", "WFSA.epsremove", ["C11"], {"self": M("WFSA", "ι")}, ("WFSA", "ι"), {}),
+    ("wfsa/base.py", "WFSA.push", ["C13"], {"self": M("WFSA", "ι")}, ("WFSA", "ι"), {}),
+    ("wfsa/base.py", "WFSA._trim", ["C13"], {"self": M("WFSA", "ι"), "active": "stateset"}, ("WFSA", "ι"), {}),
+    ("wfsa/base.py", "WFSA.to_cfg", ["C17"], {"self": M("WFSA", "σ"), "S": "sym", "recursion": "mode"}, ("CFG", None), {"pin": True}),
+    ("cfg.py", "CFG.spawn", ["C02", "C06", "C07"], {"self": "cfg", "R": "skip", "S": "osym", "V": "ovocab"}, ("CFG", None),
+     {"pin": True, "kwonly": True}),
+    ("cfg.py", "CFG.separate_start", ["C02", "C06", "C07"], {"self": "cfg"}, ("CFG", None), {"pin": True, "returns": "new-or-self"}),
+    ("cfg.py", "CFG.rename", ["C02", "C06", "C07"], {"self": "cfg", "f": "fn"}, ("CFG", None), {"pin": True}),
+    ("cfg.py", "CFG.unfold", ["C06"], {"self": "cfg", "i": "nat", "k": "nat"}, ("CFG", None), {"pin": True}),
+    ("cfg.py", "CFG.map_values", ["C07"], {"self": "cfg", "f": "wfn", "R": "skip"}, ("CFG", None), {"pin": True, "K": "K'"}),
+    ("cfg.py", "CFG.truncate_length", ["C09"], {"self": "cfg", "max_length": "nat"}, ("WFSA", "Nat"),
+     {"pin": True, "returns": "self @ acceptor", "name": "CFG_truncate_length_acceptor"}),
 ]
+# primitives of cfg.py whose meaning the interpretation FIXES (they are not translated): their bodies (docstring dropped) are
+# compared with the text the interpretation was written for; a difference makes every `pin` builder that uses them untranslatable
+PINS = {
+    ("cfg.py", "CFG.__init__"): "self.R = R\nself.V = V\nself.N = {S}\nself.S = S\nself.rules = []\nself._trim_cache = [None, None]",
+    ("cfg.py", "CFG.add"): "if w == self.R.zero:\n    return\nself.N.add(head)\nr = Rule(w, head, body)\nself.rules.append(r)\nreturn r",
+    ("cfg.py", "CFG.__iter__"): "return iter(self.rules)",
+    ("cfg.py", "CFG.is_terminal"): "return x in self.V",
+    ("cfg.py", "CFG.is_nonterminal"): "return not self.is_terminal(X)",
+    ("cfg.py", "CFG.rhs"): "rhs = defaultdict(list)\nfor r in self:\n    rhs[r.head].append(r)\nreturn rhs",
+}
 LEAN_KW = {"at", "do", "fun", "in", "from", "show", "then", "end", "have", "let", "if", "else", "match", "with", "e", "inv", "K"}
 
 
@@ -446,7 +485,8 @@ class Builder:
     """translation of one builder function (`done`: python name -> (FunctionDef params, spec) of those already emitted)"""
 
     def __init__(self, spec, trees, done):
-        self.file, self.py, self.props, self.kinds, self.ret = spec
+        self.file, self.py, self.props, self.kinds, self.ret = spec[:5]
+        self.opt = spec[5] if len(spec) > 5 else {}
         self.trees, self.done = trees, done
         self.cls = self.py.split(".")[0] if "." in self.py else None
         self.fn = self.find(self.file, self.py)
@@ -455,6 +495,26 @@ class Builder:
         self.obj = self.kind_of_obj = None   # name / class of the object under construction
         self.nest = 0            # > 0 inside a loop or a (non-constant) branch
         self.S = self.V = None   # CFG results: start symbol, vocabulary
+        self.pinned = set()
+        self.resolved = set()    # optional symbol parameters (default None) whose default the body was seen to fill in
+
+    def pin(self, name):
+        """the primitive `CFG.<name>` is used with its fixed interpretation: its body must be the one that was read"""
+        key = ("cfg.py", "CFG." + name)
+        if not self.opt.get("pin") or key in self.pinned:
+            return
+        body = self.find(*key).body
+        if body and isinstance(body[0], ast.Expr) and isinstance(body[0].value, ast.Constant):
+            body = body[1:]
+        if name == "__init__":
+            # the five public fields must be set as the interpretation assumes; further PRIVATE attributes (caches) are no concern
+            body = [x for x in body if not (isinstance(x, ast.Assign) and len(x.targets) == 1 and (_attr_chain(x.targets[0]) or [""])[0] == "self"
+                                            and len(_attr_chain(x.targets[0])) == 2 and _attr_chain(x.targets[0])[1].startswith("_")
+                                            and _attr_chain(x.targets[0])[1] != "_trim_cache")]
+        got = "\n".join(ast.unparse(x) for x in body)
+        if got != PINS[key]:
+            raise Untranslatable(f"primitive {key[1]} changed: {got[:120]!r}")
+        self.pinned.add(key)
 
     def find(self, file, py):
         body = self.trees[file].body
@@ -534,12 +594,18 @@ class Builder:
                 return f"(.inl {n.value})"
         elif isinstance(n, ast.Name) and n.id in env:
             v = env[n.id]
-            if (v.k == "state" and v.ty == want) or (v.k == "str" and want == "List σ"):
+            if (v.k == "state" and v.ty == want) or (v.k == "str" and want == "List σ") or (v.k == "nat" and want == "Nat"):
                 return v.tm
         elif isinstance(n, ast.Subscript) and isinstance(n.value, ast.Name) and env.get(n.value.id, Val("")).k == "str" and want == "List σ":
             sl = n.slice
             if isinstance(sl, ast.Slice) and sl.lower is None and sl.step is None and sl.upper is not None:
                 return f"({env[n.value.id].tm}.take {self.nat(sl.upper, env)})"
+        elif isinstance(n, ast.BinOp) and want == "Nat":
+            return self.nat(n, env)
+        elif isinstance(n, ast.Call) and isinstance(n.func, ast.Name) and env.get(n.func.id, Val("")).k == "sfn" and len(n.args) == 1 \
+                and not n.keywords and isinstance(n.args[0], ast.Name) and env.get(n.args[0].id, Val("")).k == "state" \
+                and env[n.args[0].id].ty == "ι" and want == "κ":
+            return f"({env[n.func.id].tm} {env[n.args[0].id].tm})"
         elif isinstance(n, ast.Tuple) and len(n.elts) == 2 and want == "PairState":
             return f"(.inr ({self.nat(n.elts[0], env)}, {self.nat(n.elts[1], env)}))"
         raise Untranslatable(f"state {ast.unparse(n)} (result states: {want})")
@@ -548,11 +614,59 @@ class Builder:
         ch = _attr_chain(n)
         if ch and ch[0] in env:
             v = env[ch[0]]
-            if len(ch) == 1 and v.k == "sym":
+            if len(ch) == 1 and (v.k == "sym" or v.k == "state" and v.ty == "σ"):    # states of a `WFSA σ σ K` are symbols
                 return v.tm
             if len(ch) == 2 and ((v.k == "cfg" and ch[1] == "S") or (v.k == "rule" and ch[1] == "head")):
                 return f"{v.tm}.{ch[1]}"
+        if isinstance(n, ast.Call) and isinstance(n.func, ast.Name) and env.get(n.func.id, Val("")).k == "fn" and len(n.args) == 1 and not n.keywords:
+            return f"({env[n.func.id].tm} {self.sym(n.args[0], env)})"
+        if isinstance(n, ast.IfExp):
+            c = self.test(n.test, env)
+            if isinstance(c, str):
+                return f"(if {c} then {self.sym(n.body, env)} else {self.sym(n.orelse, env)})"
+        if isinstance(n, ast.Subscript) and not isinstance(n.slice, ast.Slice):
+            b = _attr_chain(n.value)
+            if b and len(b) == 2 and env.get(b[0], Val("")).k == "rule" and b[1] == "body":
+                # `r.body[k]` may fail: the symbol is an explicit argument, `r.body[k]? = some <it>` a hypothesis of the theorem
+                nm = f"{env[b[0]].tm}_body_{self.nat(n.slice, env)}"
+                if not re.fullmatch(r"[A-Za-z_][A-Za-z_0-9]*", nm):
+                    raise Untranslatable("symbol " + ast.unparse(n))
+                if f"({nm} : σ)" not in self.extra:
+                    self.extra.append(f"({nm} : σ)")
+                    self.pre.append(f"{nm} = {ast.unparse(n)}")
+                return nm
         raise Untranslatable("symbol " + ast.unparse(n))
+
+    def vocab(self, n, env):
+        """a vocabulary (Python set of terminals) -> Lean list"""
+        if isinstance(n, ast.Name) and env.get(n.id, Val("")).k == "vocab":
+            return env[n.id].tm
+        if isinstance(n, ast.Call) and ast.unparse(n.func) == "set" and len(n.args) == 1 and not n.keywords:
+            b = _attr_chain(n.args[0])       # `set(self.V)`: a copy
+            if b and len(b) == 2 and env.get(b[0], Val("")).k == "cfg" and b[1] == "V":
+                return f"{env[b[0]].tm}.V"
+        raise Untranslatable("vocabulary " + ast.unparse(n))
+
+    def seq(self, n, env):
+        """a starred argument of `add` (a sequence of body symbols) -> Lean list term"""
+        b = _attr_chain(n)
+        if b and len(b) == 2 and env.get(b[0], Val("")).k == "rule" and b[1] == "body":
+            return f"{env[b[0]].tm}.body"
+        if isinstance(n, ast.Subscript) and isinstance(n.slice, ast.Slice) and n.slice.step is None:
+            b = _attr_chain(n.value)
+            if b and len(b) == 2 and env.get(b[0], Val("")).k == "rule" and b[1] == "body":
+                lo, up = n.slice.lower, n.slice.upper
+                if lo is None and up is not None:
+                    return f"({env[b[0]].tm}.body.take {self.nat(up, env)})"
+                if lo is not None and up is None:
+                    return f"({env[b[0]].tm}.body.drop {self.nat(lo, env)})"
+        if isinstance(n, ast.GeneratorExp) and len(n.generators) == 1:
+            g = n.generators[0]
+            if not g.ifs and not g.is_async and isinstance(g.target, ast.Name) and g.target.id not in env:
+                inner = dict(env)
+                inner[g.target.id] = Val("sym", _ident(g.target))
+                return f"({self.seq(g.iter, env)}.map fun {_ident(g.target)} => {self.sym(n.elt, inner)})"
+        raise Untranslatable("rule body " + ast.unparse(n))
 
     def weight(self, n, env):
         ch = _attr_chain(n)
@@ -563,12 +677,27 @@ class Builder:
             return env[ch[0]].tm
         if ch and len(ch) == 2 and ch[0] in env and env[ch[0]].k == "rule" and ch[1] == "w":
             return f"{env[ch[0]].tm}.w"
+        if isinstance(n, ast.Call) and isinstance(n.func, ast.Name) and env.get(n.func.id, Val("")).k == "wfn" and len(n.args) == 1 and not n.keywords:
+            return f"({env[n.func.id].tm} {self.weight(n.args[0], env)})"
         if isinstance(n, ast.BinOp) and isinstance(n.op, (ast.Mult, ast.Add)):
             return f"({self.weight(n.left, env)} {'*' if isinstance(n.op, ast.Mult) else '+'} {self.weight(n.right, env)})"
         if isinstance(n, ast.BinOp) and isinstance(n.op, ast.Div):
             if "(inv : K → K)" not in self.inst:
                 self.inst.append("(inv : K → K)")
             return f"({self.weight(n.left, env)} * inv {self.weight(n.right, env)})"
+        if isinstance(n, ast.BinOp) and isinstance(n.op, ast.Pow) and ast.unparse(n.right) in ("-1", "(-1)"):
+            if "(inv : K → K)" not in self.inst:
+                self.inst.append("(inv : K → K)")
+            return f"(inv {self.weight(n.left, env)})"
+        if isinstance(n, ast.Subscript) and isinstance(n.value, ast.Name) and env.get(n.value.id, Val("")).k == "svec":
+            return f"({env[n.value.id].tm} {self.samestate(n.slice, env)})"
+        if isinstance(n, ast.Subscript) and isinstance(n.value, ast.Name) and env.get(n.value.id, Val("")).k == "closure" \
+                and isinstance(n.slice, ast.Tuple) and len(n.slice.elts) == 2:
+            return f"({env[n.value.id].tm} {self.samestate(n.slice.elts[0], env)} {self.samestate(n.slice.elts[1], env)})"
+        if isinstance(n, ast.Subscript) and _attr_chain(n.value) and len(_attr_chain(n.value)) == 2 \
+                and env.get(_attr_chain(n.value)[0], Val("")).k == "mach" and _attr_chain(n.value)[1] in ("start", "stop"):
+            b = _attr_chain(n.value)      # the accumulated initial / final weight of a state
+            return f"(wlook {env[b[0]].tm}.{b[1]} {self.samestate(n.slice, env)})"
         if isinstance(n, ast.Subscript) and isinstance(n.value, ast.Name) and env.get(n.value.id, Val("")).k == "chart":
             return f"({n.value.id} {self.sym(n.slice, env)})"
         ch = _attr_chain(n.func) if isinstance(n, ast.Call) else None
@@ -589,18 +718,53 @@ class Builder:
             cs = [self.test(v, env) for v in n.values]
             if all(isinstance(c, str) for c in cs):
                 return "(" + " ∧ ".join(cs) + ")"
-        if isinstance(n, ast.Compare) and len(n.ops) == 1 and isinstance(n.ops[0], ast.Eq):
+        if isinstance(n, ast.Compare) and len(n.ops) == 1 and isinstance(n.ops[0], (ast.Eq, ast.NotEq)):
             l, r = n.left, n.comparators[0]
-            for f in (self.nat, self.label):
+            rel = "=" if isinstance(n.ops[0], ast.Eq) else "≠"
+            if isinstance(l, ast.Name) and env.get(l.id, Val("")).k == "mode" and isinstance(r, ast.Constant) and isinstance(r.value, str) \
+                    and re.fullmatch(r"[a-z_]+", r.value):
+                return f'({env[l.id].tm} {rel} "{r.value}")'
+            for f in (self.nat, self.label, self.samestate):
                 try:
-                    return f"({f(l, env)} = {f(r, env)})"
+                    return f"({f(l, env)} {rel} {f(r, env)})"
                 except Untranslatable:
                     pass
-            if isinstance(r, ast.Constant) and r.value == 0 and type(r.value) is int:
+            if isinstance(r, ast.Constant) and r.value == 0 and type(r.value) is int and rel == "=":
                 if "[DecidableEq K]" not in self.inst:
                     self.inst.append("[DecidableEq K]")
                 return f"({self.weight(l, env)} = 0)"
+        if isinstance(n, ast.Compare) and len(n.ops) == 1 and isinstance(n.ops[0], (ast.Eq, ast.NotEq)) \
+                and (_attr_chain(n.comparators[0]) or [""])[-1] == "zero":
+            if "[DecidableEq K]" not in self.inst:
+                self.inst.append("[DecidableEq K]")
+            return f"({self.weight(n.left, env)} {'=' if isinstance(n.ops[0], ast.Eq) else '≠'} {self.weight(n.comparators[0], env)})"
+        if isinstance(n, ast.Compare) and len(n.ops) == 1 and isinstance(n.ops[0], ast.In) and isinstance(n.comparators[0], ast.Name) \
+                and env.get(n.comparators[0].id, Val("")).k == "stateset":
+            return f"({self.samestate(n.left, env)} ∈ {env[n.comparators[0].id].tm})"
+        if isinstance(n, ast.Call) and not n.keywords and len(n.args) == 1:
+            ch = _attr_chain(n.func)
+            if ch and len(ch) == 2 and env.get(ch[0], Val("")).k == "cfg" and ch[1] in ("is_terminal", "is_nonterminal"):
+                self.pin("is_terminal")
+                if ch[1] == "is_nonterminal":
+                    self.pin("is_nonterminal")
+                return f"({self.sym(n.args[0], env)} {'∈' if ch[1] == 'is_terminal' else '∉'} {env[ch[0]].tm}.V)"
+        if isinstance(n, ast.Compare) and len(n.ops) == 1 and isinstance(n.ops[0], ast.In) and isinstance(n.comparators[0], ast.SetComp):
+            sc = n.comparators[0]     # `X in {y for r in self for y in r.body}`
+            if len(sc.generators) == 2 and all(not g.ifs and not g.is_async and isinstance(g.target, ast.Name) for g in sc.generators):
+                g1, g2 = sc.generators
+                b = _attr_chain(g2.iter)
+                if isinstance(g1.iter, ast.Name) and env.get(g1.iter.id, Val("")).k == "cfg" and g1.target.id not in env \
+                        and g2.target.id not in env and g1.target.id != g2.target.id \
+                        and b == [g1.target.id, "body"] and isinstance(sc.elt, ast.Name) and sc.elt.id == g2.target.id:
+                    self.pin("__iter__")
+                    return f"({self.sym(n.left, env)} ∈ ({env[g1.iter.id].tm}.rules.flatMap fun {_ident(g1.target)} => {_ident(g1.target)}.body))"
         raise Untranslatable("test " + ast.unparse(n))
+
+    def samestate(self, n, env):
+        """a state variable in a comparison (both sides must have the same state type: checked by Lean)"""
+        if isinstance(n, ast.Name) and env.get(n.id, Val("")).k == "state":
+            return env[n.id].tm
+        raise Untranslatable("state " + ast.unparse(n))
 
     def mach(self, n, env):
         if isinstance(n, ast.Name) and n.id in env and env[n.id].k == "mach":
@@ -665,7 +829,7 @@ class Builder:
         if len(arg) != 1 or len(n.args) + len(n.keywords) != 1:
             return None
         ch = arg[0].split(".")
-        if not (ch == ["R"] and env.get("R", Val("")).k == "skip" or len(ch) == 2 and ch[1] == "R" and env.get(ch[0], Val("")).k == "mach"):
+        if not (ch == ["R"] and env.get("R", Val("")).k == "skip" or len(ch) == 2 and ch[1] == "R" and env.get(ch[0], Val("")).k in ("mach", "cfg")):
             return None
         if f in ("FST", "WFSA"):
             return f
@@ -697,13 +861,63 @@ class Builder:
         self.obj = saved
         return ch
 
+    def cfg_ctor(self, call, env):
+        """`CFG(R=.., S=.., V=..)` / `self.__class__(R=.., S=.., V=..)` (keywords only) -> (S term, V term) of the empty grammar"""
+        f = ast.unparse(call.func)
+        ok = f == "CFG" or (f.endswith(".__class__") and env.get(f[:-10], Val("")).k == "cfg")
+        kw = {k.arg: k.value for k in call.keywords}
+        if not ok or call.args or len(kw) != 3 or set(kw) != {"R", "S", "V"}:
+            raise Untranslatable("grammar constructor " + ast.unparse(call)[:80])
+        self.pin("__init__")
+
+        def opt(n, plain):
+            """`<dflt> if P is None else P` with `P` an optional parameter; otherwise `plain`"""
+            if isinstance(n, ast.IfExp) and isinstance(n.orelse, ast.Name) and ast.unparse(n.test) == f"{n.orelse.id} is None" and n.orelse.id in env:
+                v = env[n.orelse.id]
+                if v.k == "pynone":                       # inlined call: the argument was not given
+                    return plain(n.body)
+                if v.k in ("osym", "ovocab"):             # the definition of `spawn` itself
+                    return f"({v.tm}.getD {plain(n.body)})"
+                return plain(n.orelse)                    # inlined call: the argument was given
+            return plain(n)
+        r = kw["R"]
+        rs = ast.unparse(r.body if isinstance(r, ast.IfExp) and ast.unparse(r.test) == "R is None" and ast.unparse(r.orelse) == "R" else r).split(".")
+        if not (rs == ["R"] and env.get("R", Val("")).k in ("skip", "pynone") or len(rs) == 2 and rs[1] == "R" and env.get(rs[0], Val("")).k in ("mach", "cfg")):
+            raise Untranslatable("semiring of " + ast.unparse(call)[:80])
+        return opt(kw["S"], lambda x: self.sym(x, env)), opt(kw["V"], lambda x: self.vocab(x, env))
+
+    def inline_cfg_spawn(self, recv, call, env):
+        """`recv.spawn(S=.., R=..)`: the return expression of `CFG.spawn` with the given / absent keyword arguments"""
+        fn = self.find("cfg.py", "CFG.spawn")
+        a = fn.args
+        if a.posonlyargs or a.vararg or a.kwarg or [x.arg for x in a.args] != ["self"] or call.args \
+                or [x.arg for x in a.kwonlyargs] != ["R", "S", "V"] \
+                or not all(isinstance(d, ast.Constant) and d.value is None for d in a.kw_defaults):
+            raise Untranslatable("signature / call of CFG.spawn")
+        inner = {"self": recv, "R": Val("pynone"), "S": Val("pynone"), "V": Val("pynone")}
+        for kw in call.keywords:
+            if kw.arg == "S":
+                inner["S"] = Val("sym", self.sym(kw.value, env))
+            elif kw.arg == "R" and ast.unparse(kw.value) == "R" and env.get("R", Val("")).k == "skip":
+                inner["R"] = Val("skip")
+            else:
+                raise Untranslatable("spawn argument " + ast.unparse(kw))
+        body = [x for x in fn.body if not (isinstance(x, ast.Expr) and isinstance(x.value, ast.Constant))]
+        if len(body) != 1 or not isinstance(body[0], ast.Return) or not isinstance(body[0].value, ast.Call):
+            raise Untranslatable("body of CFG.spawn")
+        return self.cfg_ctor(body[0].value, inner)
+
     def body(self, stmts, env, d):
         """function body `…; return <object>` -> channels"""
         if not stmts or not isinstance(stmts[-1], ast.Return):
             raise Untranslatable("no final return")
         ch = self.block(stmts[:-1], env, d)
         r = stmts[-1].value
-        if not (isinstance(r, ast.Name) and r.id == self.obj):
+        if self.opt.get("returns") == "self @ acceptor":     # the machine built here is composed with the grammar
+            if not (isinstance(r, ast.BinOp) and isinstance(r.op, ast.MatMult) and isinstance(r.left, ast.Name)
+                    and env.get(r.left.id, Val("")).k == "cfg" and isinstance(r.right, ast.Name) and r.right.id == self.obj):
+                raise Untranslatable("return " + ast.unparse(stmts[-1]))
+        elif not (isinstance(r, ast.Name) and r.id == self.obj):
             raise Untranslatable("return " + ast.unparse(stmts[-1]))
         return ch
 
@@ -723,10 +937,25 @@ class Builder:
         if isinstance(s, ast.Expr) and isinstance(s.value, ast.Constant) and isinstance(s.value.value, str):
             return {}
         if isinstance(s, ast.Assert) and s.msg is None:
-            self.pre.append(ast.unparse(s.test))
+            self.pre.append(("in its branch: " if self.nest else "") + ast.unparse(s.test))
             return {}
         if ast.unparse(s) == "if R is None:\n    R = w.__class__" and env.get("R", Val("")).k == "skip":
             return {}
+        if isinstance(s, ast.ImportFrom) and s.level == 0 and s.module in ("genlm.grammar", "genlm.grammar.cfg") and not self.nest \
+                and all(a.asname is None and a.name in ("CFG", "_gen_nt", "WFSA") for a in s.names):
+            return {}
+        if ast.unparse(s) == "if S is None:\n    S = _gen_nt()" and env.get("S", Val("")).k == "sym" and not self.nest:
+            self.resolved.add("S")
+            return {}    # the fresh symbol is the explicit argument `S`
+        if isinstance(s, ast.While):
+            # the renaming loop of `to_cfg`: it establishes the hypotheses of the correctness theorems and is not executed
+            # when they hold; the definition is about the machine AFTER the loop (`mapStates` keeps the language)
+            if ast.unparse(s) == "while S in self.states or not V.isdisjoint(self.states):\n    self = self.rename(lambda q: (q,))" \
+                    and env.get("S", Val("")).k == "sym" and env.get("self", Val("")).k == "mach" and self.obj is None and not self.nest \
+                    and env.get("V", Val("")).k == "vocab" and env["V"].tm == f"(WFSA.labels {env['self'].tm})":
+                self.pre.append("not (S in self.states or not V.isdisjoint(self.states)) [after the renaming loop]")
+                return {}
+            raise Untranslatable("loop " + ast.unparse(s)[:80])
         if isinstance(s, ast.Assign) and len(s.targets) == 1:
             return self.assign(s.targets[0], s.value, env, d)
         if isinstance(s, ast.Expr) and isinstance(s.value, ast.Call):
@@ -747,18 +976,27 @@ class Builder:
             if c is not None and self.obj is None:
                 self.obj, self.kind_of_obj = tg.id, c
                 return {}
+            if ch == ["CFG"] and self.obj is None:
+                self.S, self.V = self.cfg_ctor(v, env)
+                self.obj, self.kind_of_obj = tg.id, "CFG"
+                return {}
             if ch and len(ch) == 2 and ch[1] == "spawn" and ch[0] in env and self.obj is None:
                 recv = env[ch[0]]
                 if recv.k == "mach":
                     out = self.inline_spawn(recv, v, d)
                     self.obj = tg.id
                     return out
+                if recv.k == "cfg" and self.opt.get("pin"):
+                    self.S, self.V = self.inline_cfg_spawn(recv, v, env)
+                    self.obj, self.kind_of_obj = tg.id, "CFG"
+                    return {}
                 if recv.k == "cfg" and not v.args and all(k.arg == "S" for k in v.keywords) and len(v.keywords) <= 1:
                     self.obj, self.kind_of_obj = tg.id, "CFG"
                     self.S = self.sym(v.keywords[0].value, env) if v.keywords else f"{recv.tm}.S"
                     self.V = f"{recv.tm}.V"
                     return {}
-            if src == "_gen_nt('<START>')" and tg.id not in env:
+            if (src == "_gen_nt('<START>')" or self.opt.get("pin") and src == "_gen_nt(self.S)" and env.get("self", Val("")).k == "cfg") \
+                    and tg.id not in env:
                 env[tg.id] = Val("sym", _ident(tg))
                 self.extra.append(f"({_ident(tg)} : σ)")
                 return {}
@@ -767,7 +1005,41 @@ class Builder:
                 env[tg.id] = Val("chart", _ident(tg))
                 self.extra.append(f"({_ident(tg)} : σ → K)")
                 return {}
+        if isinstance(tg, ast.Name) and tg.id not in env and isinstance(v, ast.BinOp) and isinstance(v.op, ast.Sub) and self.obj is None:
+            b = _attr_chain(v.left)       # `V = self.alphabet - {EPSILON}`
+            if b and len(b) == 2 and env.get(b[0], Val("")).k == "mach" and env[b[0]].ty[0] == "WFSA" and b[1] == "alphabet" \
+                    and ast.unparse(v.right) == "{EPSILON}" and self.const("EPSILON") and not self.esym:
+                env[tg.id] = Val("vocab", f"(WFSA.labels {env[b[0]].tm})")
+                return {}
+        if isinstance(tg, ast.Name) and tg.id not in env and isinstance(v, ast.Attribute) and isinstance(v.value, ast.Name) \
+                and env.get(v.value.id, Val("")).k == "mach" and env[v.value.id].tm == v.value.id:
+            m = env[v.value.id]           # quantities of the ORIGINAL operand that the code obtains from a solver
+            if v.attr in ("backward", "forward"):
+                env[tg.id] = Val("svec", _ident(tg), m.ty[1])
+                self.extra.append(f"({_ident(tg)} : {m.ty[1]} → K)")
+                self.pre.append(f"{_ident(tg)} = {src}")
+                return {}
+            if v.attr == "E":
+                env[tg.id] = Val("graph", None, m.ty[1])
+                return {}
+        if isinstance(tg, ast.Name) and tg.id not in env and isinstance(v, ast.Call) and not v.args and not v.keywords \
+                and isinstance(v.func, ast.Attribute) and v.func.attr == "closure" and isinstance(v.func.value, ast.Name) \
+                and env.get(v.func.value.id, Val("")).k == "graph":
+            st = env[v.func.value.id].ty
+            env[tg.id] = Val("closure", _ident(tg), st)
+            self.extra += [f"({_ident(tg)} : {st} → {st} → K)", f"({_ident(tg)}_outgoing : {st} → List {st})"]
+            self.pre.append(f"{_ident(tg)} = the closure of the ε graph self.E")
+            return {}
+        if isinstance(tg, ast.Name) and tg.id not in env and isinstance(v, ast.Subscript) and not isinstance(v.slice, ast.Slice):
+            b = _attr_chain(v.value)      # `s = self.rules[i]` may fail: the rule is an explicit argument, `rules[i]? = some s` a hypothesis
+            if b and len(b) == 2 and env.get(b[0], Val("")).k == "cfg" and b[1] == "rules":
+                self.nat(v.slice, env)
+                env[tg.id] = Val("rule", _ident(tg))
+                self.extra.append(f"({_ident(tg)} : Rule σ K)")
+                self.pre.append(f"{_ident(tg)} = {src}")
+                return {}
         if isinstance(tg, ast.Name) and env.get(tg.id, Val("")).k == "sym" and src == f"{tg.id} or EOS" and self.const("EOS"):
+            self.resolved.add(tg.id)
             return {}   # default value of an optional argument
         if ast.unparse(tg) == "(self, other)" and src == "self.rename_apart(other)" and self.obj is None:
             a, b = self.mach(ast.Name("self"), env), self.mach(ast.Name("other"), env)
@@ -789,13 +1061,16 @@ class Builder:
                 lab = list(self.lpair(a[1], env)) if self.kind_of_obj == "FST" else [self.label(a[1], env)]
                 return {"arcs": [("lit", ["⟨" + ", ".join([self.state(a[0], env)] + lab + [self.state(a[2], env), self.weight(a[3], env)]) + "⟩"])]}
         elif op == ["add"] and len(a) >= 2:
+            self.pin("add")
             parts = []
             for y in a[2:]:
                 if isinstance(y, ast.Starred):
-                    b = _attr_chain(y.value)
-                    if not (b and len(b) == 2 and env.get(b[0], Val("")).k == "rule" and b[1] == "body"):
-                        raise Untranslatable("rule body " + ast.unparse(y))
-                    parts = _cat(parts, [("raw", f"{env[b[0]].tm}.body")])
+                    parts = _cat(parts, [("raw", self.seq(y.value, env))])
+                elif isinstance(y, ast.Name) and env.get(y.id, Val("")).k == "label":
+                    # an arc label as a body symbol: only where it is known not to be ε (`else` of `a == EPSILON`)
+                    if env[y.id].ty != "noneps" or self.esym:
+                        raise Untranslatable(f"label {y.id} as a body symbol (it may be ε)")
+                    parts = _cat(parts, [("raw", f"{env[y.id].tm}.toList")])
                 else:
                     parts = _cat(parts, [("lit", [self.sym(y, env)])])
             return {"rules": [("lit", [f"⟨{self.weight(a[0], env)}, {self.sym(a[1], env)}, {_render(parts)}⟩"])]}
@@ -816,6 +1091,8 @@ class Builder:
             env[name.id] = val
         if isinstance(it, ast.Name) and it.id in env and env[it.id].k in ("syms", "labels", "cfg"):
             v, b = env[it.id], _ident(tg)
+            if v.k == "cfg":
+                self.pin("__iter__")
             src = v.tm + (".rules" if v.k == "cfg" else "")
             bind(tg, Val("sym", b) if v.k == "syms" else Val("label", self.lift(b)) if v.k == "labels" else Val("rule", b))
         elif not isinstance(it, ast.Call) and ch and len(ch) == 2 and env.get(ch[0], Val("")).k == "mach" and ch[1] in ("I", "F") \
@@ -824,6 +1101,15 @@ class Builder:
             src = f"{m.tm}.{'start' if ch[1] == 'I' else 'stop'}"
             bind(names[0], Val("state", f"{e}.1", m.ty[1]))
             bind(names[1], Val("weight", f"{e}.2"))
+        elif isinstance(it, ast.Name) and env.get(it.id, Val("")).k == "stateset":
+            b = _ident(tg)                 # a Python set: no repetitions
+            src = f"{env[it.id].tm}.eraseDups"
+            bind(tg, Val("state", b, "ι"))
+        elif isinstance(it, ast.Subscript) and _attr_chain(it.value) and len(_attr_chain(it.value)) == 2 and isinstance(tg, ast.Name) \
+                and env.get(_attr_chain(it.value)[0], Val("")).k == "closure" and _attr_chain(it.value)[1] == "outgoing":
+            c, b = env[_attr_chain(it.value)[0]], _ident(tg)
+            src = f"({c.tm}_outgoing {self.samestate(it.slice, env)})"
+            bind(tg, Val("state", b, c.ty))
         elif not isinstance(it, ast.Call) and ch and len(ch) == 2 and env.get(ch[0], Val("")).k == "mach" and ch[1] == "states":
             m, b = env[ch[0]], _ident(tg)
             src = f"({m.ty[0]}.states {m.tm})"
@@ -851,10 +1137,30 @@ class Builder:
                 bind(lab, Val("label", self.lift(f"{e}.lbl")))
             bind(names[-2], Val("state", f"{e}.dst", m.ty[1]))
             bind(names[-1], Val("weight", f"{e}.w"))
-        elif ast.unparse(it).startswith("range(len(") and isinstance(tg, ast.Name):
+        elif isinstance(it, ast.Call) and ast.unparse(it.func) == "range" and isinstance(tg, ast.Name) \
+                and (ast.unparse(it).startswith("range(len(") or self.opt.get("pin")):
             b = _ident(tg)
             src = f"(List.range {self.nat(it.args[0], env)})" if len(it.args) == 1 and not it.keywords else None
             bind(tg, Val("nat", b))
+        elif not isinstance(it, ast.Call) and ch and len(ch) == 2 and env.get(ch[0], Val("")).k == "cfg" and ch[1] == "V" and self.opt.get("pin"):
+            b = _ident(tg)                 # a Python set: no repetitions
+            src = f"{env[ch[0]].tm}.V.eraseDups"
+            bind(tg, Val("sym", b))
+        elif isinstance(it, ast.Subscript) and _attr_chain(it.value) and len(_attr_chain(it.value)) == 2 and self.opt.get("pin") \
+                and env.get(_attr_chain(it.value)[0], Val("")).k == "cfg" and _attr_chain(it.value)[1] == "rhs" and isinstance(tg, ast.Name):
+            self.pin("rhs")                # `self.rhs[X]`: the rules with head X, in order
+            self.pin("__iter__")
+            g, b = env[_attr_chain(it.value)[0]], _ident(tg)
+            src = f"({g.tm}.rules.filter fun {b} => {b}.head = {self.sym(it.slice, env)})"
+            bind(tg, Val("rule", b))
+        elif isinstance(it, ast.Call) and ast.unparse(it.func) == "enumerate" and len(it.args) == 1 and not it.keywords \
+                and names and len(names) == 2 and isinstance(names[1], ast.Name) and isinstance(it.args[0], ast.Name) \
+                and env.get(it.args[0].id, Val("")).k == "cfg":
+            self.pin("__iter__")
+            b = e
+            src = f"{env[it.args[0].id].tm}.rules.zipIdx"
+            bind(names[0], Val("nat", f"{e}.2"))
+            bind(names[1], Val("rule", f"{e}.1"))
         elif isinstance(it, ast.Call) and ast.unparse(it.func) == "enumerate" and len(it.args) == 1 and not it.keywords \
                 and names and len(names) == 2 and isinstance(names[1], ast.Tuple) and len(names[1].elts) == 2:
             x, b = it.args[0], e
@@ -903,21 +1209,32 @@ class Builder:
         c = self.test(s.test, env)
         if isinstance(c, bool):      # decided by a constant flag (inlined `spawn`): only the live branch exists
             return self.block(s.body if c else s.orelse, env, d)
+        e_thn, e_els = dict(env), dict(env)
+        t = s.test      # `a == EPSILON` / `a != EPSILON` on a label variable: in the other branch `a` is a symbol
+        if isinstance(t, ast.Compare) and len(t.ops) == 1 and isinstance(t.ops[0], (ast.Eq, ast.NotEq)) and isinstance(t.left, ast.Name) \
+                and env.get(t.left.id, Val("")).k == "label" and ast.unparse(t.comparators[0]) in ("EPSILON", "ε") and not self.esym:
+            (e_els if isinstance(t.ops[0], ast.Eq) else e_thn)[t.left.id] = Val("label", env[t.left.id].tm, "noneps")
         self.nest += 1
-        thn, els = self.block(s.body, dict(env), d), self.block(s.orelse, dict(env), d)
+        thn, els = self.block(s.body, e_thn, d), self.block(s.orelse, e_els, d)
         self.nest -= 1
         return {nm: [("if", c, thn.get(nm, []), els.get(nm, []))] for nm in list(thn) + [k for k in els if k not in thn]}
 
     # ------------------------------------------------------------------ the definition
     def translate(self):
         a = self.fn.args
-        if a.posonlyargs or a.vararg or a.kwonlyargs:
+        if a.posonlyargs or a.vararg or (a.kwonlyargs and not self.opt.get("kwonly")):
             raise Untranslatable("signature")
-        params = [x.arg for x in a.args] + ([a.kwarg.arg] if a.kwarg else [])
+        params = [x.arg for x in a.args] + [x.arg for x in a.kwonlyargs] + ([a.kwarg.arg] if a.kwarg else [])
+        mode_default, need = {}, set()
         if params != list(self.kinds):
             raise Untranslatable(f"parameters {params} (expected {list(self.kinds)})")
-        for x, dflt in zip(a.args[len(a.args) - len(a.defaults):], a.defaults):
-            if not (isinstance(dflt, ast.Constant) and dflt.value is None and self.kinds[x.arg] in ("skip", "oweight", "sym")):
+        for x, dflt in list(zip(a.args[len(a.args) - len(a.defaults):], a.defaults)) + list(zip(a.kwonlyargs, a.kw_defaults)):
+            if isinstance(dflt, ast.Constant) and isinstance(dflt.value, str) and self.kinds[x.arg] == "mode" and re.fullmatch(r"[a-z_]+", dflt.value):
+                mode_default[x.arg] = dflt.value      # becomes the default value of the Lean parameter
+                continue
+            if self.kinds[x.arg] == "sym":
+                need.add(x.arg)
+            if not (isinstance(dflt, ast.Constant) and dflt.value is None and self.kinds[x.arg] in ("skip", "oweight", "sym", "osym", "ovocab")):
                 raise Untranslatable(f"default of {x.arg}")
         env, binders = {}, []
         for p, k in self.kinds.items():
@@ -927,13 +1244,29 @@ class Builder:
             else:
                 env[p] = Val(k, p)
                 if k != "skip":
-                    binders.append(f"({p} : {P_TY[k]})")
+                    binders.append(f"({p} : {P_TY[k]}" + (f' := "{mode_default[p]}")' if p in mode_default else ")"))
         stmts = [s for s in self.fn.body]
         sigma = "(ESym σ)" if self.esym else "σ"
-        rty = "CFG σ K" if self.ret[0] == "CFG" else f"{self.ret[0]} {'(' + self.ret[1] + ')' if ' ' in self.ret[1] else self.ret[1]} {sigma} K"
+        rty = f"CFG σ {self.opt.get('K', 'K')}" if self.ret[0] == "CFG" else \
+            f"{self.ret[0]} {'(' + self.ret[1] + ')' if ' ' in self.ret[1] else self.ret[1]} {sigma} K"
         last = stmts[-1] if stmts else None
-        if isinstance(last, ast.Return) and isinstance(last.value, ast.Call) and all(
-                isinstance(s, ast.Expr) and isinstance(s.value, ast.Constant) for s in stmts[:-1]):
+        docs = lambda ss: all(isinstance(s, ast.Expr) and isinstance(s.value, ast.Constant) for s in ss)   # noqa: E731
+        if isinstance(last, ast.Return) and isinstance(last.value, ast.Call) and docs(stmts[:-1]) and self.ret[0] == "CFG":
+            S, V = self.cfg_ctor(last.value, env)          # `CFG.spawn`: an empty grammar
+            rhs = f" where\n  S := {S}\n  V := {V}\n  rules := []"
+        elif self.opt.get("returns") == "new-or-self":
+            # `if <test>: <build new>; return new  else: return self` (the whole body)
+            if not (isinstance(last, ast.If) and docs(stmts[:-1]) and len(last.orelse) == 1 and isinstance(last.orelse[0], ast.Return)
+                    and isinstance(last.orelse[0].value, ast.Name) and env.get(last.orelse[0].value.id, Val("")).k == "cfg"):
+                raise Untranslatable("shape of the body (if .. return new else return self)")
+            c = self.test(last.test, env)
+            if not isinstance(c, str):
+                raise Untranslatable("test " + ast.unparse(last.test))
+            ch = self.body(last.body, env, 0)
+            if self.kind_of_obj != "CFG" or set(ch) - {"rules"}:
+                raise Untranslatable("result of the first branch")
+            rhs = f" :=\n  if {c} then {{ S := {self.S}, V := {self.V}, rules := {_render(ch.get('rules', []))} }}\n  else {env[last.orelse[0].value.id].tm}"
+        elif isinstance(last, ast.Return) and isinstance(last.value, ast.Call) and docs(stmts[:-1]):
             c = self.new_machine(last.value, env)
             if c is not None:
                 v = Val("mach", "{ start := [], stop := [], arcs := [] }", (c, self.ret[1]))
@@ -954,8 +1287,10 @@ class Builder:
                 extra = set(ch) - {"start", "stop", "arcs"}
             if extra:
                 raise Untranslatable(f"entries {extra} in a {self.ret[0]}")
+        if need - self.resolved:
+            raise Untranslatable(f"optional parameter(s) {sorted(need - self.resolved)}: the default None is not replaced in the body")
         doc = f"/-- `{self.file}`: `{self.py}({', '.join(params)})`" + "".join(f"; requires `{p}`" for p in self.pre) + " -/\n"
-        return doc + f"def {lean_name(self.py)} {' '.join(self.inst + binders + self.extra)} : {rty}{rhs}\n", params
+        return doc + f"def {self.opt.get('name') or lean_name(self.py)} {' '.join(self.inst + binders + self.extra)} : {rty}{rhs}\n", params
 
 
 def translate_builders(read):
@@ -964,9 +1299,9 @@ def translate_builders(read):
     for f in sorted({b[0] for b in BUILDERS}):
         trees[f] = ast.parse(read(f))
     out = ["/- GENERATED by harness/translate.py from genlm/grammar/{fst,cfg,cfglm,wfsa/base}.py — do not edit -/",
-           "import GenlmModel.Model.FstOps", "import GenlmModel.Model.Norm", "namespace Genlm.Gen.Build",
+           "import GenlmModel.Model.FstOps", "import GenlmModel.Model.Norm", "import GenlmModel.Model.WfsaOps2", "namespace Genlm.Gen.Build",
            "set_option linter.unusedVariables false", "",
-           "variable {ι κ σ K : Type} [DecidableEq ι] [DecidableEq κ] [DecidableEq σ] [Add K] [Mul K] [Zero K] [One K]", ""]
+           "variable {ι κ σ K K' : Type} [DecidableEq ι] [DecidableEq κ] [DecidableEq σ] [Add K] [Mul K] [Zero K] [One K]", ""]
     for spec in BUILDERS:
         try:
             txt, params = Builder(spec, trees, done).translate()
@@ -976,6 +1311,193 @@ def translate_builders(read):
             failed[spec[1]] = str(e) if isinstance(e, Untranslatable) else f"internal: {e!r}"
             out += [f"-- `{spec[0]}`: `{spec[1]}` is outside the translated fragment: {str(e)[:200]}".replace("\n", " "), ""]
     out.append("end Genlm.Gen.Build")
+    return "\n".join(out) + "\n", failed
+
+
+# ----------------------------------------------------------------------------- fold functions
+# A second STRICT fragment: functions that compute a VALUE with one accumulator loop (chart.py, lm.py).  Output:
+# Generated/Folds.lean; Proofs/GenLink/{ChartProduct,Lm}.lean prove `gen_<f>_eq_model`.
+# Statement language: `assert` (recorded), `ACC = <scalar>`, `for <x> in <keys>` / `for i, y in enumerate(<keys>)` whose body is
+# `assert`, `x = self.p_next(<keys>[:i])`, `ACC op= <scalar>` and a final `if ACC == 0: break`; `if <scalar> == 0: return self`;
+# `return <scalar | chart comprehension>`.
+# Interpretation (fixed here): a `Chart` read with `self[k]` (`__missing__` gives zero) is a total function `τ → K`; a chart that
+# is iterated (`values()`, `items()`) is an association list `List (τ × K)`; Python's `sum` is a left fold from `0`;
+# `self.semiring.chart(<pairs>)` is the list of the pairs; `self.p_next(c)[y]` is an explicit function `p_next c y`;
+# a loop with `break` is a fold over (accumulator, stopped) that ignores the rounds after the break.
+FOLDS = [
+    ("chart.py", "Chart.sum", ["C04"], {"self": "chart"}, "K"),
+    ("chart.py", "Chart.normalize", ["C04"], {"self": "chart"}, "List (τ × K)"),
+    ("chart.py", "Chart.product", ["C20"], {"self": "chartfn", "ks": "keys"}, "K"),
+    ("lm.py", "LM.__call__", ["C04"], {"self": "lm", "context": "keys"}, "K"),
+]
+F_TY = {"chart": "List (τ × K)", "chartfn": "τ → K", "keys": "List τ"}
+
+
+class Fold:
+    def __init__(self, spec, trees, done):
+        self.file, self.py, self.props, self.kinds, self.rty = spec
+        self.trees, self.done, self.pre = trees, done, []
+        self.fn = Builder.find(self, self.file, self.py)
+
+    def keys(self, n, env):
+        if isinstance(n, ast.Name) and env.get(n.id, Val("")).k == "keys":
+            return env[n.id].tm
+        if isinstance(n, ast.Subscript) and isinstance(n.slice, ast.Slice) and n.slice.lower is None and n.slice.step is None \
+                and n.slice.upper is not None:
+            return f"({self.keys(n.value, env)}.take {self.nat(n.slice.upper, env)})"
+        raise Untranslatable("sequence " + ast.unparse(n))
+
+    def nat(self, n, env):
+        if isinstance(n, ast.Name) and env.get(n.id, Val("")).k == "nat":
+            return env[n.id].tm
+        raise Untranslatable("number " + ast.unparse(n))
+
+    def key(self, n, env):
+        if isinstance(n, ast.Name) and env.get(n.id, Val("")).k == "key":
+            return env[n.id].tm
+        raise Untranslatable("key " + ast.unparse(n))
+
+    def scalar(self, n, env):
+        if isinstance(n, ast.Constant) and type(n.value) is int and n.value in (0, 1):
+            return str(n.value)
+        if isinstance(n, ast.Name) and env.get(n.id, Val("")).k == "scalar":
+            return env[n.id].tm
+        ch = _attr_chain(n)
+        if ch and len(ch) == 3 and env.get(ch[0], Val("")).k in ("chart", "chartfn") and ch[1] == "semiring" and ch[2] in ("one", "zero"):
+            return "1" if ch[2] == "one" else "0"
+        if isinstance(n, ast.BinOp) and type(n.op) in (ast.Add, ast.Mult, ast.Div):
+            return f"({self.scalar(n.left, env)} {({ast.Add: '+', ast.Mult: '*', ast.Div: '/'})[type(n.op)]} {self.scalar(n.right, env)})"
+        if isinstance(n, ast.Subscript) and isinstance(n.value, ast.Name) and env.get(n.value.id, Val("")).k in ("chartfn", "dist"):
+            return f"({env[n.value.id].tm} {self.key(n.slice, env)})"
+        if isinstance(n, ast.Call) and not n.keywords:
+            f = ast.unparse(n.func)
+            if f == "sum" and len(n.args) == 1:
+                a = n.args[0]
+                if isinstance(a, ast.Call) and not a.args and not a.keywords and _attr_chain(a.func) and len(_attr_chain(a.func)) == 2 \
+                        and env.get(_attr_chain(a.func)[0], Val("")).k == "chart" and _attr_chain(a.func)[1] == "values":
+                    return f"({env[_attr_chain(a.func)[0]].tm}.foldl (fun acc e => acc + e.2) 0)"
+            ch = _attr_chain(n.func)
+            if ch and len(ch) == 2 and not n.args and env.get(ch[0], Val("")).k == "chart" and f"Chart.{ch[1]}" in self.done \
+                    and self.done[f"Chart.{ch[1]}"] == ["self"] and ch[1] == "sum":
+                return f"(Chart_sum {env[ch[0]].tm})"
+        raise Untranslatable("value " + ast.unparse(n))
+
+    def result(self, n, env):
+        if self.rty == "K":
+            return self.scalar(n, env)
+        if isinstance(n, ast.Name) and env.get(n.id, Val("")).k == "chart":
+            return env[n.id].tm
+        if isinstance(n, ast.Call) and not n.keywords and len(n.args) == 1 and isinstance(n.args[0], ast.GeneratorExp):
+            ch, g = _attr_chain(n.func), n.args[0]
+            if ch and len(ch) == 3 and env.get(ch[0], Val("")).k == "chart" and ch[1:] == ["semiring", "chart"] and len(g.generators) == 1:
+                gg = g.generators[0]
+                it = gg.iter
+                if not gg.ifs and not gg.is_async and isinstance(gg.target, ast.Tuple) and len(gg.target.elts) == 2 \
+                        and all(isinstance(x, ast.Name) and x.id not in env for x in gg.target.elts) \
+                        and isinstance(it, ast.Call) and not it.args and not it.keywords and _attr_chain(it.func) == [ch[0], "items"] \
+                        and isinstance(g.elt, ast.Tuple) and len(g.elt.elts) == 2:
+                    inner = dict(env)
+                    inner[gg.target.elts[0].id] = Val("key", "e.1")
+                    inner[gg.target.elts[1].id] = Val("scalar", "e.2")
+                    return f"({env[ch[0]].tm}.map fun e => ({self.key(g.elt.elts[0], inner)}, {self.scalar(g.elt.elts[1], inner)}))"
+        raise Untranslatable("result " + ast.unparse(n))
+
+    def loop(self, s, env, acc):
+        """`for` with accumulator `acc` -> Lean term of the final accumulator"""
+        if s.orelse:
+            raise Untranslatable("for .. else")
+        env, it, tg = dict(env), s.iter, s.target
+        if isinstance(it, ast.Name) and env.get(it.id, Val("")).k == "keys" and isinstance(tg, ast.Name) and tg.id not in env:
+            src, b = env[it.id].tm, _ident(tg)
+            env[tg.id] = Val("key", b)
+        elif isinstance(it, ast.Call) and ast.unparse(it.func) == "enumerate" and len(it.args) == 1 and not it.keywords \
+                and isinstance(tg, ast.Tuple) and len(tg.elts) == 2 and all(isinstance(x, ast.Name) and x.id not in env for x in tg.elts):
+            src, b = f"{self.keys(it.args[0], env)}.zipIdx", "e"
+            env[tg.elts[0].id] = Val("nat", "e.2")
+            env[tg.elts[1].id] = Val("key", "e.1")
+        else:
+            raise Untranslatable("loop over " + ast.unparse(it))
+        lets, brk, body = [], False, list(s.body)
+        if body and ast.unparse(body[-1]) == f"if {acc} == 0:\n    break":
+            brk, body = True, body[:-1]
+        for st in body:
+            if isinstance(st, ast.Assert):
+                self.pre.append("in the loop: " + ast.unparse(st.test))
+            elif isinstance(st, ast.AugAssign) and isinstance(st.target, ast.Name) and st.target.id == acc and type(st.op) in (ast.Mult, ast.Add):
+                lets.append(f"let {acc} := {acc} {'*' if isinstance(st.op, ast.Mult) else '+'} {self.scalar(st.value, env)}")
+            elif isinstance(st, ast.Assign) and len(st.targets) == 1 and isinstance(st.targets[0], ast.Name) and st.targets[0].id not in env \
+                    and isinstance(st.value, ast.Call) and _attr_chain(st.value.func) and len(_attr_chain(st.value.func)) == 2 \
+                    and env.get(_attr_chain(st.value.func)[0], Val("")).k == "lm" and _attr_chain(st.value.func)[1] == "p_next" \
+                    and len(st.value.args) == 1 and not st.value.keywords:
+                nm = _ident(st.targets[0])
+                lets.append(f"let {nm} := p_next {self.keys(st.value.args[0], env)}")
+                env[st.targets[0].id] = Val("dist", nm)
+            else:
+                raise Untranslatable("statement in a loop: " + ast.unparse(st)[:80])
+        if not any(x.startswith(f"let {acc} :=") for x in lets):
+            raise Untranslatable("loop without an update of " + acc)
+        if brk:
+            return (f"({src}.foldl (fun (st : K × Bool) {b} => if st.2 then st else\n      let {acc} := st.1; " + "; ".join(lets)
+                    + f"; ({acc}, decide ({acc} = 0))) ({env[acc].tm}, false)).1")
+        return f"({src}.foldl (fun {acc} {b} => " + "; ".join(lets) + f"; {acc}) {env[acc].tm})"
+
+    def translate(self):
+        a = self.fn.args
+        if a.posonlyargs or a.vararg or a.kwonlyargs or a.kwarg or a.defaults or [x.arg for x in a.args] != list(self.kinds):
+            raise Untranslatable("signature")
+        env, binders = {}, []
+        for p_, k in self.kinds.items():
+            env[p_] = Val(k, p_)
+            binders.append("(p_next : List τ → τ → K)" if k == "lm" else f"({p_} : {F_TY[k]})")
+        lines = []
+        stmts = [x for x in self.fn.body if not (isinstance(x, ast.Expr) and isinstance(x.value, ast.Constant))]
+        for k, st in enumerate(stmts):
+            last = k == len(stmts) - 1
+            if isinstance(st, ast.Assert) and not last:
+                self.pre.append(ast.unparse(st.test))
+            elif isinstance(st, ast.Assign) and not last and len(st.targets) == 1 and isinstance(st.targets[0], ast.Name) and st.targets[0].id not in env:
+                nm = _ident(st.targets[0])
+                lines.append(f"let {nm} : K := {self.scalar(st.value, env)}")
+                env[st.targets[0].id] = Val("scalar", nm)
+            elif isinstance(st, ast.For) and not last and k + 2 == len(stmts) and ast.unparse(stmts[-1]).startswith("return ") \
+                    and isinstance(stmts[-1].value, ast.Name) and env.get(stmts[-1].value.id, Val("")).k == "scalar":
+                acc = stmts[-1].value.id
+                lines.append(f"let {acc} : K := {self.loop(st, env, acc)}")
+            elif isinstance(st, ast.If) and not last and not st.orelse and len(st.body) == 1 and isinstance(st.body[0], ast.Return) \
+                    and isinstance(st.test, ast.Compare) and len(st.test.ops) == 1 and isinstance(st.test.ops[0], ast.Eq) \
+                    and isinstance(st.test.comparators[0], ast.Constant) and type(st.test.comparators[0].value) is int \
+                    and st.test.comparators[0].value == 0 and k + 2 == len(stmts) and isinstance(stmts[-1], ast.Return):
+                lines.append(f"if {self.scalar(st.test.left, env)} = 0 then {self.result(st.body[0].value, env)} else "
+                             f"{self.result(stmts[-1].value, env)}")
+                break
+            elif isinstance(st, ast.Return) and last and st.value is not None:
+                lines.append(self.result(st.value, env))
+            else:
+                raise Untranslatable("statement " + ast.unparse(st)[:80])
+        else:
+            if not stmts or not isinstance(stmts[-1], ast.Return):
+                raise Untranslatable("no final return")
+        params = [x.arg for x in a.args]
+        doc = f"/-- `{self.file}`: `{self.py}({', '.join(params)})`" + "".join(f"; requires `{p_}`" for p_ in self.pre) + " -/\n"
+        return doc + f"def {lean_name(self.py)} {' '.join(binders)} : {self.rty} :=\n  " + "\n  ".join(lines) + "\n", params
+
+
+def translate_folds(read):
+    trees, failed, done = {}, {}, {}
+    for f in sorted({b[0] for b in FOLDS}):
+        trees[f] = ast.parse(read(f))
+    out = ["/- GENERATED by harness/translate.py from genlm/grammar/{chart,lm}.py — do not edit -/",
+           "namespace Genlm.Gen.Fold", "set_option linter.unusedVariables false", "",
+           "variable {τ K : Type} [Add K] [Mul K] [Div K] [Zero K] [One K] [DecidableEq K]", ""]
+    for spec in FOLDS:
+        try:
+            txt, params = Fold(spec, trees, done).translate()
+            done[spec[1]] = params
+            out += [txt]
+        except Exception as e:   # fail closed
+            failed[spec[1]] = str(e) if isinstance(e, Untranslatable) else f"internal: {e!r}"
+            out += [f"-- `{spec[0]}`: `{spec[1]}` is outside the translated fragment: {str(e)[:200]}".replace("\n", " "), ""]
+    out.append("end Genlm.Gen.Fold")
     return "\n".join(out) + "\n", failed
 
 
@@ -1018,6 +1540,18 @@ def run(prop=None):
     except (Untranslatable, SyntaxError, OSError) as e:
         ok = False
         log.append(f"builders: untranslatable: {e}")
+    try:
+        base = os.path.join(common.REPO, "genlm", "grammar")
+        txt, failed = translate_folds(lambda f: open(os.path.join(base, f), encoding="utf-8").read())
+        _write_if_changed(os.path.join(gen, "Folds.lean"), txt)
+        mine = {b[1]: why for b in FOLDS for why in [failed.get(b[1])] if why and (prop is None or prop in b[2])}
+        log.append(f"folds: {len(FOLDS) - len(failed)}/{len(FOLDS)} translated")
+        for nm, why in mine.items():
+            ok = False
+            log.append(f"{nm}: untranslatable: {why}")
+    except (Untranslatable, SyntaxError, OSError) as e:
+        ok = False
+        log.append(f"folds: untranslatable: {e}")
     return {"ok": ok, "log": "; ".join(log)}
 
 
